@@ -129,7 +129,9 @@ func (r *c9Runner) assignSegments() map[*c9AU]*c9AU {
 				cur, curNs = u, ns(u)
 				calls = 0
 				starts = append(starts, segStart{u.call, u})
-			} else if newCall && u.j == 0 {
+			} else if r.variant != "ts" || (newCall && u.j == 0) {
+				// fMP4 variants: every AU of a call is a sample of its own (`fmp4WriteSample` per AU), a segment may be cut
+				// on any of them; MPEG-TS: one PES per call, cut only between calls and after 100 calls
 				d := new(big.Int).Sub(ns(u), curNs)
 				if d.Cmp(big.NewInt(r.segMin)) >= 0 && (r.variant != "ts" || calls >= 100) {
 					cur, curNs = u, ns(u)
@@ -333,6 +335,17 @@ func (r *c9Runner) evalClient(c *c9ClientRun, segFirst map[*c9AU]*c9AU) {
 		}
 	}
 
+	// A segment that leaves the muxer's window between the lookup of its handler and the read is answered 200 with an
+	// EMPTY body by the RAM storage (500 by the disk storage, 404 once the path is unregistered). Since the repair of
+	// F15 the client skips a body without samples, so a client that slow now continues with a hole instead of
+	// ending with an error. Timing class (like `gone`): the no-gap clause is not judged for such a client.
+	goneEmpty := false
+	for _, sv := range c.served {
+		if sv.zero {
+			goneEmpty = true
+		}
+	}
+
 	// ---- units: identity, once, order, gaps
 	type hit struct {
 		u *c9AU
@@ -375,7 +388,7 @@ func (r *c9Runner) evalClient(c *c9ClientRun, segFirst map[*c9AU]*c9AU) {
 				case u.seq < prev:
 					fail("", "track %d (%s): unit %d delivered after unit %d, written in the opposite order", i, mt.codec, id, mt.aus[prev].pay)
 					bad = true
-				case prev >= 0 && r.variant != "ll":
+				case prev >= 0 && r.variant != "ll" && !goneEmpty:
 					for s := prev + 1; s < u.seq; s++ {
 						if x := mt.aus[s]; x.ok && x.pic {
 							fail("", "track %d (%s): gap - unit %d (written between delivered units %d and %d) was not delivered", i, mt.codec, x.pay, mt.aus[prev].pay, id)
@@ -439,7 +452,7 @@ func (r *c9Runner) evalClient(c *c9ClientRun, segFirst map[*c9AU]*c9AU) {
 								nd++
 							}
 						}
-						fmt.Fprintf(os.Stderr, "E2E-DEBUG   client %d stream %s resp %d %s units=%d delivered=%d\n", c.idx, sid, i, c9Canonical(strings.TrimPrefix(sv.path, "/")), len(sv.pays), nd)
+						fmt.Fprintf(os.Stderr, "E2E-DEBUG   client %d stream %s resp %d %s units=%d delivered=%d zero=%v empty=%v status=%d\n", c.idx, sid, i, c9Canonical(strings.TrimPrefix(sv.path, "/")), len(sv.pays), nd, sv.zero, sv.empty, sv.status)
 					}
 				}
 				last := -1
@@ -545,7 +558,13 @@ func (r *c9Runner) evalClient(c *c9ClientRun, segFirst map[*c9AU]*c9AU) {
 			// (LL: the anchor is the previous segment's date-time + listed durations, each rounded to 10 us.)
 			inLeadingStream := r.variant == "ts" || want[i] == r.leadingIdx()
 			var exp *big.Rat
-			tolNs := int64(2000000)
+			// 1 ms = the playlist's resolution (EXT-X-PROGRAM-DATE-TIME is the segment's NTP truncated to ms). When the
+			// NTPs of the case are not exactly linear in DTS (units that do not start on whole milliseconds are written
+			// with floor(ms)), an anchor taken from another segment differs by that quantisation: one more ms.
+			tolNs := int64(1000000)
+			if !r.ntpExactlyLinear() {
+				tolNs = 2000000
+			}
 			what := ""
 			tag := ""
 			if f := segFirst[h.u]; f != nil && inLeadingStream {
@@ -557,12 +576,18 @@ func (r *c9Runner) evalClient(c *c9ClientRun, segFirst map[*c9AU]*c9AU) {
 				// written on the same line; NTP of the unit itself = that + DTS distance (up to the quantisation)
 				exp = ratOf(h.u.ntpNs, 1)
 				what = "the NTP written with the unit itself (= NTP of the first unit of its segment + DTS distance, NTP being linear in DTS)"
+				if r.ntpExactlyLinear() && r.linC != nil {
+					// exactly linear case: the line through the leading track's (DTS, NTP) pairs, not this track's own
+					// floor(ms) values
+					exp = new(big.Rat).Add(r.linC, new(big.Rat).Mul(h.u.tsec, ratOf(1000000000, 1)))
+					what = "the NTP the leading track's units were written with, extended linearly to this unit's DTS"
+				}
 				if c.spec.pl != "mv" && r.variant != "ts" {
 					// a rendition's media playlist read on its own: its date-times are the LEADING track's
 					tag = "Fxx-rendition-date-time:"
 				}
 			}
-			if r.variant == "ll" {
+			if r.variant == "ll" && !r.ntpExactlyLinear() {
 				tolNs += 250000
 			}
 			if exp != nil {
@@ -574,6 +599,27 @@ func (r *c9Runner) evalClient(c *c9ClientRun, segFirst map[*c9AU]*c9AU) {
 			}
 		}
 	}
+}
+
+// ntpExactlyLinear: over all units written to the leading track, NTP − DTS is one constant (up to 1 us): then
+// every segment's date-time predicts every unit's time exactly, up to the truncation of the date-time to ms.
+func (r *c9Runner) ntpExactlyLinear() bool {
+	if r.linChecked {
+		return r.linExact
+	}
+	r.linChecked, r.linExact = true, true
+	var c *big.Rat
+	for _, u := range r.tracks[r.leadingIdx()].aus {
+		d := new(big.Rat).Sub(ratOf(u.ntpNs, 1), new(big.Rat).Mul(u.tsec, ratOf(1000000000, 1)))
+		if c == nil {
+			c = d
+			r.linC = d
+		} else if x := new(big.Rat).Sub(c, d); x.Abs(x).Cmp(ratOf(1000, 1)) > 0 { // 1 us: per-AU NTPs are truncated to ns
+			r.linExact = false
+			break
+		}
+	}
+	return r.linExact
 }
 
 // c9Canonical replaces the muxer's random 12-hex-digit prefix.
